@@ -22,11 +22,14 @@ type Options struct {
 	MapOrderAll   bool // explore every map iteration order (up to MapOrderMax entries)
 	MapOrderMax   int
 	Preemptions   int // preemption bound
+	HashFork      bool // valuehash.NewSHA256 on symbolic input: fork on equality with earlier inputs (concrete digests) instead of solver-level injectivity constraints
+	DelayBound    int // >= 0: delay-bounded scheduling with that many deviations from oldest-first; -1: off
+	SchedWidth    int // max alternatives explored at a free context switch (blocking point / goroutine exit); 0 = all
 	Trace         bool
 }
 
 func DefaultOptions() Options {
-	return Options{MaxSteps: 3_000_000, MaxDecisions: 4000, MaxConcretize: 64, MapOrderMax: 4, Preemptions: 2}
+	return Options{MaxSteps: 3_000_000, MaxDecisions: 4000, MaxConcretize: 64, MapOrderMax: 4, Preemptions: 2, DelayBound: -1}
 }
 
 // Program is the immutable, shared part: SSA program + indexes.
@@ -494,6 +497,10 @@ func RunPath(p *Program, pool *SolverPool, opt Options, entry *ssa.Function, pre
 		ctxs:     map[*Value]*ctxState{},
 		userData: map[string]interface{}{},
 	}
+	if opt.DelayBound >= 0 {
+		m.userData["sched.delaybound"] = opt.DelayBound
+		m.userData["sched.delays"] = 0
+	}
 	m.res = &PathResult{Reached: map[string]bool{}, Funcs: map[string]bool{}, Stubs: map[string]bool{}, Notes: map[string]int{}}
 	g0 := m.newG(nil)
 	g0.main = true
@@ -562,8 +569,10 @@ func (m *Machine) callSSA(caller *Frame, pos token.Pos, fn *ssa.Function, args [
 	if fn.Parent() == nil {
 		name := fn.String()
 		if ext, ok := externals[name]; ok {
-			m.res.Stubs[name] = true
-			return ext(m, fr, args)
+			if en, opt := optionalExternals[name]; !opt || en(m) {
+				m.res.Stubs[name] = true
+				return ext(m, fr, args)
+			}
 		}
 		if o := fn.Origin(); o != nil {
 			if ext, ok := externals[o.String()]; ok {
